@@ -516,12 +516,23 @@ class RealizeMemrefCasts(RewritePattern):
         # input or output, list to visit all uses of allocated memrefs:
         uses = [x.operation for x in op.dest.uses]
 
-        # insert "copy to" for first use as input
-        # walk parent op in order to find first use as input
+        def in_cast_block(use_op: Operation) -> Operation:
+            # the op of the cast's block that contains the use (the use itself, or e.g. the loop around it)
+            while use_op.parent is not op.parent:
+                parent = use_op.parent_op()
+                assert parent is not None
+                use_op = parent
+            return use_op
+
+        # insert "copy to" before the first use (of any kind: an earlier writer must not be
+        # overwritten), if there is a use as input
         assert op.parent
+        first_use: Operation | None = None
         for use_op in op.parent.walk():
             if use_op not in uses:
                 continue
+            if first_use is None:
+                first_use = in_cast_block(use_op)
             # check if input
             is_input = False
             if isinstance(use_op, linalg.GenericOp):
@@ -534,7 +545,7 @@ class RealizeMemrefCasts(RewritePattern):
             if is_input:
                 # insert copy op
                 copy_op = memref.CopyOp(source_op.source, op.dest)
-                rewriter.insert_op(copy_op, InsertPoint.before(use_op))
+                rewriter.insert_op(copy_op, InsertPoint.before(first_use))
                 break
 
         # insert "copy from" for last use as output
